@@ -35,7 +35,7 @@ func TestC15Race(t *testing.T) {
 		hbPeriod := time.Duration(rapid.IntRange(2, 5).Draw(t, "hb_ms")) * time.Millisecond
 		runFor := time.Duration(rapid.IntRange(15, 60).Draw(t, "run_ms")) * time.Millisecond
 		closeRacing := rapid.Bool().Draw(t, "close_racing")
-		keyed := rapid.IntRange(0, 3).Draw(t, "keyed") == 0
+		keyed := rapid.IntRange(0, 1).Draw(t, "keyed") == 0
 		slowConsumer := rapid.IntRange(0, 2).Draw(t, "slow_consumer") == 0
 		leaveBeforeClose := rapid.Bool().Draw(t, "leave_before_close")
 		lateDials := rapid.SliceOfN(rapid.IntRange(0, 1500), 0, 3).Draw(t, "late_tcp_dials_us") // TCP peers that connect while Close is under way
@@ -230,6 +230,11 @@ func TestC15Race(t *testing.T) {
 					case 2:
 						n.WriteMessageExcept(target, m) //nolint:errcheck
 					case 3:
+						// a forwarding goroutine re-stamps its own frame before sending it on (several of these
+						// goroutines do so at once; FixFrame works on the caller's frame)
+						if k%2 == 0 {
+							n.FixFrame(fr) //nolint:errcheck
+						}
 						n.WriteFrameAll(fr) //nolint:errcheck
 					case 4:
 						n.WriteFrameTo(target, fr)  //nolint:errcheck
